@@ -380,6 +380,43 @@ def s31():
     return mk, lambda iso: iso.add_symlink('/SYM.;1', 'sym', 'f', joliet_path='sym')
 
 
+@scenario('relocation_name_leaves_no_room_for_rock_ridge', ['pycdlib.PyCdlib.add_directory|v0.new_dir(...)'])
+def s40():
+    # level 3 allows a 207 character directory name, a Rock Ridge directory record has no room for it; without
+    # relocation that is refused before anything happens, with relocation RR_MOVED has been created by then
+    def mk():
+        iso = pycdlib.PyCdlib()
+        iso.new(interchange_level=3, rock_ridge='1.09')
+        p = ''
+        for i in range(7):
+            p += '/D%d' % i
+            iso.add_directory(p, rr_name='d%d' % i)
+        return iso
+    return mk, lambda iso: iso.add_directory('/D0/D1/D2/D3/D4/D5/D6/' + 'L' * 200, rr_name='long')
+
+
+@scenario('add_directory_joliet_empty_path', ['pycdlib.PyCdlib.add_directory|prevalidation'])
+def s41():
+    mk = lambda: base(joliet=3)
+    return mk, lambda iso: iso.add_directory('/DIR1', joliet_path='')
+
+
+@scenario('add_fp_udf_parent_missing_with_joliet', ['pycdlib.PyCdlib._add_fp|prevalidation'])
+def s42():
+    mk = lambda: base(joliet=3, udf='2.60')
+    return mk, lambda iso: iso.add_fp(io.BytesIO(b'x'), 1, '/A.;1', joliet_path='/a', udf_path='/missing/a')
+
+
+@scenario('add_eltorito_bootcat_joliet_duplicate', ['pycdlib.PyCdlib.add_eltorito|rollback'])
+def s43():
+    def mk():
+        iso = base(joliet=3)
+        iso.add_fp(io.BytesIO(b'b' * 2048), 2048, '/BOOT.;1', joliet_path='/boot')
+        iso.add_fp(io.BytesIO(b'c'), 1, '/OTHER.;1', joliet_path='/boot.cat')
+        return iso
+    return mk, lambda iso: iso.add_eltorito('/BOOT.;1', bootcatfile='/BOOT.CAT;1', joliet_bootcatfile='/boot.cat')
+
+
 def run(names):
     bad = []
     for name in names:
